@@ -325,8 +325,9 @@ def r5(p, rep):
             v = d.value
             filtered = False
             if isinstance(v, ast.DictComp) and any(g.ifs for g in v.generators):
-                cond = " ".join(norm(i) for g in v.generators for i in g.ifs)
-                filtered = "use_parameter(" in cond or "parameters" in cond
+                # the filter with predicate helpers and locals written out must look at the factory's declared parameters
+                cond = " ".join(norm(cfg.expand(i, cfg.node_for(d)) if cfg.node_for(d) is not None else i) for g in v.generators for i in g.ifs)
+                filtered = ".parameters" in cond or "parameters[" in cond or "in parameters" in cond
             elif isinstance(v, ast.Call):
                 r = resolve_callee(p, v, f.module)
                 if r and r[0] == "func" and r[1].module is f.module:
@@ -334,6 +335,17 @@ def r5(p, rep):
                     filtered = ("parameters" in body and ".kind" in body) and ("if " in body)
                     passes_params = any("parameters" in norm(a) for a in v.args)
                     filtered = filtered and passes_params
+            if isinstance(v, ast.Dict) and not v.keys:
+                # built by a loop: `out = {}; for name, value in kwargs.items(): if accepts(parameters, name): out[name] = value`
+                aliases = {t.id for a_ in walk_no_nested(f.node) if isinstance(a_, ast.Assign) and ".parameters" in norm(a_.value) for t in a_.targets if isinstance(t, ast.Name)}
+                stores = [a_ for a_ in walk_no_nested(f.node) if isinstance(a_, ast.Assign) and any(isinstance(t, ast.Subscript) and isinstance(t.value, ast.Name) and t.value.id == kw.id for t in a_.targets)]
+                def _guarded(a_):
+                    for t, pol in cfg.guards_of_ast(a_):
+                        txt = norm(t)
+                        if ".parameters" in txt or any(isinstance(y, ast.Name) and y.id in aliases for y in ast.walk(t)):
+                            return True
+                    return False
+                filtered = bool(stores) and all(_guarded(a_) for a_ in stores)
             if filtered and cfg.dominates(cfg.node_for(d), cnode):
                 # no later unfiltered re-definition reaches the call
                 later = [x for x in kdefs if x.lineno > d.lineno and x.lineno < c.lineno]
